@@ -100,7 +100,7 @@ def _loops(text, body_open):
     return out
 
 
-def desugar_for(text, body_open, n, itname, hits, plain=False):
+def desugar_for(text, body_open, n, itname, hits, plain=False, entry=None, exit_=None):
     """R11: rewrite the n-th loop, which must be `for PAT in EXPR {`, into the loop Rust (and Verus' own
     `for` support) desugars it to, so that invariant_except_break / ensures can be stated:
         let mut IT = VerusForLoopWrapper::new(IntoIterator::into_iter(EXPR)); let ghost IT__snap0 = IT.snapshot@;
@@ -145,10 +145,14 @@ def desugar_for(text, body_open, n, itname, hits, plain=False):
         hits['R11.for_desugared'] = hits.get('R11.for_desugared', 0) + 1
         return text
     new_head = ('let mut %s = vstd::std_specs::iter::VerusForLoopWrapper::new(core::iter::IntoIterator::into_iter(%s)); '
-                'let ghost %s__snap0 = %s.snapshot@; loop ' % (itname, ' '.join(expr.split()), itname, itname)) + '\n' * nl
-    new_body_start = ('{ let ghost %s__old = %s; let %s = match %s.next() { Some(v__) => v__, None => { break; } }; '
-                      'proof { assert(vstd::std_specs::iter::trigger_peek_implications(vstd::std_specs::iter::IteratorSpec::peek(&%s__old.snapshot@, %s__old.index@))); } '
-                      % (itname, itname, ' '.join(pat.split()), itname, itname, itname))
+                'let ghost %s__snap0 = %s.snapshot@; %sloop ' % (itname, ' '.join(expr.split()), itname, itname,
+                                                                 ('proof { %s } ' % entry) if entry else '')) + '\n' * nl
+    # entry= / exit= : proof text (lemma calls) placed just before the loop / just before the break on exhaustion
+    exit_txt = ('proof { %s } ' % exit_) if exit_ else ''
+    new_body_start = ('{ let ghost %s__old = %s; let %s = match %s.next() { Some(v__) => v__, None => { ' % (itname, itname, ' '.join(pat.split()), itname)
+                      + exit_txt + 'break; } }; '
+                      + 'proof { assert(vstd::std_specs::iter::trigger_peek_implications(vstd::std_specs::iter::IteratorSpec::peek(&%s__old.snapshot@, %s__old.index@))); } '
+                      % (itname, itname))
     text = text[:kw.start()] + new_head + new_body_start + text[ob + 1:]
     hits['R11.for_desugared'] = hits.get('R11.for_desugared', 0) + 1
     return text
@@ -313,6 +317,11 @@ def process_template(unit, tmpl_path, repo_root):
             for k, l in enumerate(inc_lines):
                 asm.emit(l, ('include', toks[1], k + 1))
             asm.includes.append(inc)
+            i += 1
+            continue
+        if d == 'formatfn':
+            # //@formatfn "<format string>" <fn>: format!("<format string>", a, b) in later cuts -> fn(&a, &b)
+            extract.FORMAT_FNS['"%s"' % toks[1]] = toks[2]
             i += 1
             continue
         if d == 'table':
@@ -534,7 +543,9 @@ def _finish_cut(asm, c, text, hits, kv, secs, kind):
             text = extract.r12_unsafe_blocks(text, hits)
     for tk, lines_, no in secs:
         if tk[0] == 'desugar_for':
-            text = desugar_for(text, 0, int(tk[1]), tk[2] if len(tk) > 2 else 'it', hits, plain=(len(tk) > 3 and tk[3] == 'plain'))
+            pos_, kv_ = _kv(tk[1:])
+            text = desugar_for(text, 0, int(pos_[0]), pos_[1] if len(pos_) > 1 else 'it', hits, plain=(len(pos_) > 2 and pos_[2] == 'plain'),
+                               entry=kv_.get('entry'), exit_=kv_.get('exit'))
     m = mask(text)
     if kind == 'fn':
         fnkw = re.search(r'\bfn\s+' + re.escape(kv['name']) + r'\b', text)
